@@ -1,4 +1,5 @@
 //@include prelude/head.rs
+broadcast use {ax::axiom_string_eq_spec, ax::axiom_string_obeys_eq, ax::axiom_string_to_string, axw::axiom_into_string_bytes, axw::axiom_version_round_trip};
 //@props C01 C02 C04
 //@include regions/errors.rs
 //@include regions/op_types.rs
@@ -13,4 +14,5 @@
 //@include lemmas/transform.rs
 //@include regions/snapshot_impl.rs
 //@include regions/sync_impl.rs
+//@include lemmas/history.rs
 //@include prelude/tail.rs
